@@ -87,3 +87,126 @@ package service
 //@ ensures [C16,C08] no_request_of_the_batch_stays_pending: requestContext.BatchState != BATCHCOMPLETED ==>
 //@      (forall rid Bytes :: {raw[KActID(rid)]} ridCtx(rid) == requestContextID && ridBatch(rid) == requestContext.BatchCounter ==> raw[KActID(rid)] == bnil)
 //@ ensures [C12] callback_once_if_the_batch_was_still_open: (let rc := requestContext in requestContext.BatchState == BATCHCOMPLETED || len(rc.ModuleName) == 0 ==> cblog == old(cblog))
+
+// ---------------------------------------------------------------- message handlers (C05: authority; a message debits only its signer)
+//@ func handleMsgDefineService
+//@ props C05 C15
+//@ modifies raw
+//@ ensures [C15] defines_once: err == NoErr ==> !defFound(old(raw), msg.Name) && raw == old(raw)[KDef(msg.Name) := raw[KDef(msg.Name)]]
+//@ ensures error_changes_nothing: err != NoErr ==> raw == old(raw)
+
+//@ func handleMsgBindService
+//@ props C05 C03 C14 C15
+//@ modifies raw, bal
+//@ preserves wf: WF(raw)
+//@ preserves [C03] deposits_in_custody: depInv(raw, bal)
+//@ requires a3_signer_ordinary: ordinary(msg.Owner)
+//@ requires a2_validated: (forall d Str :: amt(msg.Deposit, d) >= 0)
+//@ ensures [C05] module_services_cannot_be_bound: err == NoErr ==> !moduleSvcFound(msg.ServiceName)
+//@ ensures [C05] provider_keeps_its_owner: err == NoErr ==> (ownerFound(old(raw), msg.Provider) ==> addrEq(msg.Owner, ownerOf(old(raw), msg.Provider)))
+//@ ensures [C05] only_the_signer_is_debited: forall a Bytes, d Str :: {bal[a][d]} a != msg.Owner ==> bal[a][d] >= old(bal)[a][d]
+//@ ensures error_changes_nothing: err != NoErr ==> raw == old(raw) && bal == old(bal)
+
+//@ func handleMsgUpdateServiceBinding
+//@ props C05 C03 C14
+//@ modifies raw, bal
+//@ preserves wf: WF(raw)
+//@ preserves [C03] deposits_in_custody: depInv(raw, bal)
+//@ requires a3_signer_ordinary: ordinary(msg.Owner)
+//@ requires a2_validated: (forall d Str :: amt(msg.Deposit, d) >= 0)
+//@ ensures [C05] only_the_binding_owner: err == NoErr ==> bindFound(old(raw), msg.ServiceName, msg.Provider) && addrEq(msg.Owner, bindOf(old(raw), msg.ServiceName, msg.Provider).Owner)
+//@ ensures [C05] only_the_signer_is_debited: forall a Bytes, d Str :: {bal[a][d]} a != msg.Owner ==> bal[a][d] >= old(bal)[a][d]
+
+//@ func handleMsgSetWithdrawAddress
+//@ props C05 C13
+//@ modifies raw
+//@ ensures [C13,C05] only_the_signers_own_withdrawal_address_changes: raw == old(raw)[KWAddr(msg.Owner) := raw[KWAddr(msg.Owner)]] && withdrawAddrOf(raw, msg.Owner) == msg.WithdrawAddress
+//@ requires a2_validated: len(msg.WithdrawAddress) > 0
+
+//@ func handleMsgDisableServiceBinding
+//@ props C05 C03
+//@ modifies raw
+//@ preserves wf: WF(raw)
+//@ preserves [C03] deposits_in_custody: depInv(raw, bal)
+//@ ensures [C05] only_the_binding_owner: err == NoErr ==> bindFound(old(raw), msg.ServiceName, msg.Provider) && addrEq(msg.Owner, bindOf(old(raw), msg.ServiceName, msg.Provider).Owner)
+//@ ensures error_changes_nothing: err != NoErr ==> raw == old(raw)
+
+//@ func handleMsgEnableServiceBinding
+//@ props C05 C03 C14
+//@ modifies raw, bal
+//@ preserves wf: WF(raw)
+//@ preserves [C03] deposits_in_custody: depInv(raw, bal)
+//@ requires a3_signer_ordinary: ordinary(msg.Owner)
+//@ requires a2_validated: (forall d Str :: amt(msg.Deposit, d) >= 0)
+//@ ensures [C05] only_the_binding_owner: err == NoErr ==> bindFound(old(raw), msg.ServiceName, msg.Provider) && addrEq(msg.Owner, bindOf(old(raw), msg.ServiceName, msg.Provider).Owner)
+//@ ensures [C05] only_the_signer_is_debited: forall a Bytes, d Str :: {bal[a][d]} a != msg.Owner ==> bal[a][d] >= old(bal)[a][d]
+//@ ensures error_changes_nothing: err != NoErr ==> raw == old(raw) && bal == old(bal)
+
+//@ func handleMsgRefundServiceDeposit
+//@ props C05 C03
+//@ modifies raw, bal
+//@ preserves wf: WF(raw)
+//@ preserves [C03] deposits_in_custody: depInv(raw, bal)
+//@ ensures [C05] only_the_binding_owner: err == NoErr ==> bindFound(old(raw), msg.ServiceName, msg.Provider) && addrEq(msg.Owner, bindOf(old(raw), msg.ServiceName, msg.Provider).Owner)
+//@ ensures [C05] no_ordinary_account_is_debited: forall a Bytes, d Str :: {bal[a][d]} a != depositAcc ==> bal[a][d] >= old(bal)[a][d]
+//@ ensures error_changes_nothing: err != NoErr ==> raw == old(raw) && bal == old(bal)
+
+//@ func handleMsgPauseRequestContext
+//@ props C05 C09
+//@ modifies raw
+//@ ensures [C05] only_the_consumer_and_never_a_module_context: err == NoErr ==> (let c := ctxOf(old(raw), msg.RequestContextId) in
+//@      ctxFound(old(raw), msg.RequestContextId) && addrEq(msg.Consumer, c.Consumer) && len(c.ModuleName) == 0)
+//@ ensures [C09] pause_only: err == NoErr ==> (let c := ctxOf(old(raw), msg.RequestContextId) in c.Repeated && c.State == RUNNING &&
+//@      raw == old(raw)[KCtx(msg.RequestContextId) := enc_RequestContext(c[State := PAUSED])])
+//@ ensures error_changes_nothing: err != NoErr ==> raw == old(raw)
+
+//@ func handleMsgStartRequestContext
+//@ props C05 C09
+//@ modifies raw
+//@ ensures [C05] only_the_consumer_and_never_a_module_context: err == NoErr ==> (let c := ctxOf(old(raw), msg.RequestContextId) in
+//@      ctxFound(old(raw), msg.RequestContextId) && addrEq(msg.Consumer, c.Consumer) && len(c.ModuleName) == 0)
+//@ ensures [C09] start_only_from_paused: err == NoErr ==> ctxOf(old(raw), msg.RequestContextId).State == PAUSED && ctxOf(raw, msg.RequestContextId) == ctxOf(old(raw), msg.RequestContextId)[State := RUNNING]
+//@ ensures error_changes_nothing: err != NoErr ==> raw == old(raw)
+
+//@ func handleMsgKillRequestContext
+//@ props C05 C09
+//@ modifies raw
+//@ ensures [C05] only_the_consumer_and_never_a_module_context: err == NoErr ==> (let c := ctxOf(old(raw), msg.RequestContextId) in
+//@      ctxFound(old(raw), msg.RequestContextId) && addrEq(msg.Consumer, c.Consumer) && len(c.ModuleName) == 0)
+//@ ensures [C09] kill_only_repeated: err == NoErr ==> (let c := ctxOf(old(raw), msg.RequestContextId) in c.Repeated &&
+//@      raw == old(raw)[KCtx(msg.RequestContextId) := enc_RequestContext(c[State := COMPLETED])])
+//@ ensures error_changes_nothing: err != NoErr ==> raw == old(raw)
+
+//@ func handleMsgUpdateRequestContext
+//@ props C05 C09 C10
+//@ modifies raw
+//@ requires a2_validated: msg.Timeout >= 0
+//@ requires stored_in_range: ctxFound(raw, msg.RequestContextId) ==> rng_RequestContext(ctxOf(raw, msg.RequestContextId)) && ctxOf(raw, msg.RequestContextId).BatchCounter < 9223372036854775808
+//@ ensures [C05] only_the_consumer_and_never_a_module_context: err == NoErr ==> (let c := ctxOf(old(raw), msg.RequestContextId) in
+//@      ctxFound(old(raw), msg.RequestContextId) && addrEq(msg.Consumer, c.Consumer) && len(c.ModuleName) == 0)
+//@ ensures [C09] never_a_completed_context_identity_kept: err == NoErr ==> (let c := ctxOf(old(raw), msg.RequestContextId) in let n := ctxOf(raw, msg.RequestContextId) in
+//@      c.State != COMPLETED && sameIdentity(c, n) && n.State == c.State && n.BatchCounter == c.BatchCounter)
+//@ ensures error_changes_nothing: err != NoErr ==> raw == old(raw)
+
+//@ func handleMsgRespondService
+//@ props C05 C08 C02
+//@ modifies raw, bal, supply, cblog
+//@ maypanic
+//@ preserves wf: WF(raw)
+//@ preserves [C03] deposits_in_custody: depInv(raw, bal)
+//@ requires binding_of_request_exists: requestFound(raw, msg.RequestId) ==> bindFound(raw, reqSvc(raw, msg.RequestId), reqProv(raw, msg.RequestId))
+//@ requires fee_nonneg: requestFound(raw, msg.RequestId) ==> (forall i Int :: {reqFee(raw, msg.RequestId)[i]} 0 <= i && i < len(reqFee(raw, msg.RequestId)) ==> reqFee(raw, msg.RequestId)[i].Amount >= 0)
+//@ requires stored_in_range: requestFound(raw, msg.RequestId) ==> rng_RequestContext(ctxOf(raw, reqCtxId(raw, msg.RequestId)))
+//@ requires consumer_ordinary: requestFound(raw, msg.RequestId) ==> ordinary(reqConsumer(raw, msg.RequestId))
+//@ ensures [C05,C08] only_the_designated_provider_while_pending: err == NoErr ==> requestFound(old(raw), msg.RequestId) && addrEq(msg.Provider, reqProv(old(raw), msg.RequestId)) && isActive(old(raw), msg.RequestId)
+//@ ensures [C08] rejected_response_changes_nothing: (!requestFound(old(raw), msg.RequestId) || !addrEq(msg.Provider, reqProv(old(raw), msg.RequestId)) || !isActive(old(raw), msg.RequestId))
+//@      ==> err != NoErr && raw == old(raw) && bal == old(bal) && supply == old(supply)
+
+//@ func handleMsgWithdrawEarnedFees
+//@ props C05 C13
+//@ modifies raw, bal
+//@ requires a3_signer_address: len(msg.Owner) == 20
+//@ requires owner_total_covers_provider: forall d Str :: pfxSum(raw, POwnerEarned(msg.Owner), d) >= pfxSum(raw, PEarned(msg.Provider), d)
+//@ requires recorded_earnings_nonneg: forall d Str :: pfxSum(raw, PEarned(msg.Provider), d) >= 0 && pfxSum(raw, POwnerEarned(msg.Owner), d) >= 0
+//@ ensures [C05] only_the_provider_owner: err == NoErr && len(msg.Provider) > 0 ==> addrEq(msg.Owner, ownerOf(old(raw), msg.Provider))
+//@ ensures [C05] only_the_escrow_is_debited: err == NoErr ==> (forall a Bytes, d Str :: {bal[a][d]} a != requestAcc ==> bal[a][d] >= old(bal)[a][d])
